@@ -17,6 +17,10 @@
 // or offline() (bookkeeping below); the callback frees its node, so a later touch of the node is an ASan report;
 // counting mutex: re-lock by the holder (self-deadlock), unlock of a free mutex, mutex still held after a call;
 // a call that respects the documented preconditions must not stop in FRG_ASSERT; watchdog for calls that never return.
+// Node reuse ("ab t n keep": the callback keeps the node object, a later "ab" of the slot registers the SAME object again;
+// "ab t n rearm": the callback re-registers its own node once, from inside run()): when a callback starts, and whenever a
+// call has returned, a node with no outstanding registration must be fully detached -- list hook next/previous null,
+// in_list false, target 0 (oracle kind node-hook-dirty): the library keeps no link into a node that belongs to the user.
 #include <atomic>
 #include <chrono>
 #include <condition_variable>
@@ -58,10 +62,12 @@ static const char *op_name(int o) {
 	return n[o];
 }
 
+enum { M_FREE, M_KEEP, M_REARM };    // what the callback does with the node
 struct Obj {
 	frg::qs_node node;
 	int id;
 	uint64_t payload;
+	int mode = M_FREE;
 };
 static Obj *obj_of(frg::qs_node *n) { return reinterpret_cast<Obj *>(reinterpret_cast<char *>(n) - offsetof(Obj, node)); }
 
@@ -94,6 +100,7 @@ struct Ctx {
 	// harness-side bookkeeping (lock-step mode)
 	bool h_online[MAXA] = {};
 	bool h_registered[MAXN] = {};
+	std::atomic<bool> dirty_reported{false};
 	int h_owner[MAXN];
 	std::set<int> need[MAXN];
 	std::string cb_log;
@@ -106,6 +113,17 @@ static Obj *fresh(int id) {
 	Obj *o = new Obj;
 	o->id = id; o->payload = MAGIC;
 	return o;
+}
+
+// A node with no outstanding registration belongs to the user: nothing of the pending list may be left in it.
+static void check_detached(frg::qs_node *n, int id, const char *when) {
+	auto &h = n->_queue_node;
+	if((h.next || h.previous || h.in_list || n->_target_qs_counter) && !g->dirty_reported.exchange(true)) {
+		vh::oracle("node-hook-dirty", "node %d %s but is not detached from the pending list: hook next %s, previous %s, in_list %d, target %llu "
+				"(the library keeps links into a node that belongs to the user again; registering it again stops in push_back)",
+				id, when, h.next ? "non-null" : "null", h.previous ? "non-null" : "null", h.in_list ? 1 : 0,
+				(unsigned long long)n->_target_qs_counter);
+	}
 }
 
 void StepMutex::lock() {
@@ -156,6 +174,7 @@ static void on_gp(frg::qs_node *n) {
 			vh::oracle("callback-context", "callback of node %d invoked in %s() of agent %d (owner: agent %d)", id, op_name(tl_op), tl_tid, id % g->K);
 		if(o->payload != MAGIC)
 			vh::oracle("callback-twice", "callback of node %d invoked on an object that was already reclaimed", id);
+		check_detached(n, id, "is being called back");
 		o->payload = DEAD;                 // plain write: must happen-after every reader's access
 		delete o;
 		g->fired++;
@@ -173,6 +192,18 @@ static void on_gp(frg::qs_node *n) {
 		vh::oracle("grace-period", "callback of node %d invoked although agent %d (online when it was registered) has not entered quiescent_state()/offline() since",
 				id, *g->need[id].begin());
 	char b[32]; snprintf(b, sizeof b, " %d@%d", id, tl_tid); g->cb_log += b;
+	check_detached(n, id, "is being called back");
+	if(o->mode == M_KEEP)
+		return;                    // the user keeps the object and may register it again later
+	if(o->mode == M_REARM) {
+		// the callback re-arms its own node (once): a new registration, made from inside run()
+		o->mode = M_KEEP;
+		g->need[id].clear();
+		for(int x = 0; x < g->K; x++) if(g->h_online[x]) g->need[id].insert(x);
+		g->h_owner[id] = tl_tid; g->h_registered[id] = true;
+		g->ws->agent(tl_tid)->await_barrier(n);
+		return;
+	}
 	// The node belongs to the user from now on: reclaim it.  Any later access by the library is a use-after-free.
 	o->payload = DEAD;
 	delete o;
@@ -295,6 +326,7 @@ static void lockstep(const vh::Lines &ls) {
 				valid = !c.h_registered[n];
 				Obj *ob = c.objs[n];
 				if(valid) {
+					ob->mode = tk.size() > 3 && tk[3] == "rearm" ? M_REARM : tk.size() > 3 && tk[3] == "keep" ? M_KEEP : M_FREE;
 					c.pub[n].store(nullptr);            // unpublish, then register
 					ob->node.on_grace_period = on_gp;
 					c.need[n].clear();
@@ -334,6 +366,8 @@ static void lockstep(const vh::Lines &ls) {
 			vh::oracle("mutex-imbalance", "the domain mutex is still held after %s() of agent %d returned", op_name(op), t);
 		if(op == OP_ON) c.h_online[t] = true;
 		if(op == OP_OFF) c.h_online[t] = false;
+		for(int m = 0; m < c.N; m++)
+			if(!c.h_registered[m]) check_detached(&c.objs[m]->node, m, "has no outstanding registration");
 		print_state();
 	}
 	shutdown();
